@@ -3,7 +3,7 @@ from props._common import *  # noqa
 ID = 'C03'
 LEVEL = 'proof'
 FUNCTIONS = ENTRY + [N + 'get_contents', N + 'get_parent'] + HUB
-TRUSTED = [A_PY, A_BS4, A_IR, A_SMT, 'get_tag_descendants under an assumed contract (tag_desc = Tag descendants in document order): bounded']
+TRUSTED = [A_PY, A_BS4, A_IR, A_SMT, A_PRE]
 ASSUMPTIONS = TRUSTED
 EXPLANATION = ('CSSMatch.match/select/closest/filter are proved to be the views the property states (filtered tag-descendant sequence with limit, '
                'nearest matching ancestor-or-self and never the document object, matching element children) of one relation `matches`.')
@@ -24,5 +24,5 @@ FUNCTIONS = FUNCTIONS + [M + '__init__', N + 'assert_valid_input']
 
 VALIDATION = [validate_bs4]
 
-FUNCTIONS = FUNCTIONS + [q for q in CACHE if q not in FUNCTIONS]
+FUNCTIONS = FUNCTIONS + [q for q in dict.fromkeys(CACHE + DESC) if q not in FUNCTIONS]
 SHARDS = dict(SHARDS)
